@@ -463,9 +463,41 @@ def base_cov(ck, P):
 
 
 # ----------------------------------------------------------------------------------- C03
+def open_race_native(ck):
+    """standing native scenario for the reader's constructor: a publication lands at each shared-memory access ShmReader::new makes
+    (on the unchanged tree it makes none: the header is read through the file descriptor); the idle-writer snapshot afterwards must be
+    that publication.  returns the list of runs; records a violation when a stale record is served"""
+    rp = common.Replay('debug')
+    runs = []
+    k = 1
+    while k <= 8:
+        out = rp.ask('open_race %d' % k)
+        f = dict(x.split('=', 1) for x in out.split()[1:] if '=' in x) if out.startswith('ok') else {}
+        runs.append({'publication_at_access': k, 'out': out[:120]})
+        ck.cov['evaluations'] += 1
+        if f.get('snapshot_bound') not in (None, '222'):
+            ck.violation('stale-when-idle', 'a client opens the segment (record A published) while the daemon publishes record B at shared-memory access #%s of ShmReader::new (of %s); the daemon is idle afterwards, yet the first snapshot() returns %s, not B: the reader starts with a record cached under a generation it was not read under'
+                         % (f.get('wrote_at'), f.get('accesses_in_new'), 'record A' if f.get('snapshot_bound') == '111' else f.get('snapshot_bound')), {'cmd': 'open_race %d' % k, 'native': out})
+            break
+        if not f or int(f.get('accesses_in_new', '0')) < k:
+            break
+        k += 1
+    rp.close()
+    ck.cov['native_open_race'] = runs
+    return runs
+
+
 def check_c03(tier, seed):
     ck = Check('C03', tier, seed)
-    P = Programs()
+    try:
+        P = Programs()
+    except EngineError as e:
+        # the programs are outside the encodable fragment (e.g. a constructor that itself reads the segment): the standing native
+        # scenarios still run; without a violation the check stays inconclusive
+        open_race_native(ck)
+        ck.inconclusive.append('EngineError: %s' % e)
+        return ck.finish()
+    open_race_native(ck)
     base_cov(ck, P)
     cfgs = [(2, 2)] if tier == 'quick' else [(2, 2), (3, 2), (2, 3), (4, 2), (3, 3)]
     tasks = []
@@ -584,6 +616,59 @@ def value_protocol(ck, P, pr, tier):
     fails = []
     shape_unknown = []
     rounds = 3 if tier == 'quick' else 6
+    # the constructor itself, taking over a published segment (any generation a crash can leave): whatever it stores into the generation
+    # obeys the same protocol - never 0, within u16, and an even value only over a record it has just written in full
+    new_fails = []
+    for o in P.writer_new_outs:
+        if o.kind != 'return' or 'Ok' not in o.value.p or 'Err' in o.value.p or 'wipe' in [e.kind for e in o.state.trace]:
+            continue
+        evs = list(o.state.trace)
+        pairs = []; cur_v = g; wrote = False
+        for e in evs:
+            if e.kind == 'load' and (e.args[1], e.args[2]) == gen_loc:
+                pairs.append((e.ret, cur_v))
+            elif e.kind == 'write':
+                wrote = True
+            elif e.kind == 'store' and (e.args[1], e.args[2]) == gen_loc:
+                v = subst(e.info['val'], pairs) if pairs else e.info['val']
+                pc_ = subst(o.state.pcond(), pairs) if pairs else o.state.pcond()
+                cl = {'is never 0': v != 0, 'is within u16': z3.And(v >= 0, v < 65536),
+                      'is even only after the record has been rewritten in full (an interrupted update is not declared complete)': z3.Implies(z3.And(v % 2 == 0, cur_v % 2 == 1), z3.BoolVal(wrote))}
+                for nm_, c_ in cl.items():
+                    res = pr.prove('ShmWriter::new over a published segment (generation g, g != 0): a value it stores into the generation ' + nm_, z3.And(pc_, g != 0), c_, need_reach=False)
+                    if isinstance(res, tuple):
+                        new_fails.append((nm_, mval(res[1], g)))
+                cur_v = v
+    if new_fails:
+        import struct
+        from .segment_files import MAGIC0, MAGIC1
+        rpn = common.Replay('debug')
+        seen_g = set()
+        for nm_, g0 in new_fails:
+            for gg in (g0, 65535, 65534, 3):
+                if gg in seen_g or gg is None:
+                    continue
+                seen_g.add(gg)
+                hdr = struct.pack('<IIIHH', MAGIC0, MAGIC1, 72, 1, gg)
+                rec = struct.pack('<qqqqqIIiI', 11, 22, 33, 44, 55, 66, 0, 1, 0)
+                out = rpn.ask('recreate ' + (hdr + rec).hex())
+                f = dict(x.split('=', 1) for x in out.split()[1:] if '=' in x) if out.startswith('ok') else {}
+                if not f.get('bytes'):
+                    continue
+                nb = bytes.fromhex(f['bytes'])
+                after = struct.unpack('<H', nb[14:16])[0]
+                if after == 0 or (after % 2 == 0 and gg % 2 == 1 and nb[16:] == rec):
+                    ck.violation('value-protocol:constructor', 'real ShmWriter::new on a published segment left at generation %d (%s): the generation afterwards is %d%s'
+                                 % (gg, 'odd: the previous writer died mid-update' if gg % 2 else 'even', after,
+                                    ' - it returned to 0, the segment reads as never initialised' if after == 0 else ' - even again although the interrupted record was not rewritten'),
+                                 {'cmd': 'recreate ' + (hdr + rec).hex(), 'native': out})
+                    break
+            if ck.violations:
+                break
+        rpn.close()
+        if not ck.violations:
+            ck.inconclusive.append('ShmWriter::new stores into the generation in a way the protocol clauses reject (%s) but the native runs keep the protocol' % new_fails[0][0])
+        pr.handled = getattr(pr, 'handled', set()) | {n for n, m in pr.failed if n.startswith('ShmWriter::new over a published segment')}
     wr = P.prog.find1('write', self_ty='ShmWriter')
     for oi, (obj0, wiped, new_lds) in enumerate(objs):
         tag = 'new(%s)' % ('wiped segment' if wiped else 'segment reused')
@@ -934,10 +1019,25 @@ def open_path_blocking(ck, seed):
         ck.cov['evaluations'] += 1
         if out.startswith('ok hung') and hung is None:
             hung = (kind, out)
+    # a file that ends anywhere inside the header or the record (the daemon died or is stopped part-way through writing it): the open
+    # returns (with an error), it never waits for bytes that may not come
+    for n_ in list(range(0, 18)) + [40, 71]:
+        out = rp.ask('openlocked none 3000 %d' % n_)
+        ck.cov['evaluations'] += 1
+        if out.startswith('ok hung') and hung is None:
+            hung = ('trunc%d' % n_, out)
+            runs.append({'file_cut_after_bytes': n_, 'out': out[:160]})
+    runs.append({'files_cut_after_n_bytes': 'n = 0..17, 40, 71', 'all_returned': hung is None or not hung[0].startswith('trunc')})
     rp.close()
     ck.cov['native_open_under_lock'] = runs
     if hung:
         kind, out = hung
+        if kind.startswith('trunc'):
+            ck.violation('open-spins-on-short-file', 'the segment file ends after %s bytes (the daemon died, or is stopped, part-way through writing it): a client\'s ShmReader::new() had not returned 3000 ms later - it keeps reading for bytes that are not there'
+                         % kind[5:], {'cmd': 'openlocked none 3000 %s' % kind[5:], 'native': out})
+            pr.handled = {n for n, m in pr.failed}
+            ck.absorb(pr)
+            return
         ck.violation('open-blocks-on-lock', 'another process (a daemon stopped - not dead - at that point) holds an exclusive %s lock on the segment file: a client\'s ShmReader::new() had not returned 3000 ms later (it waits for that process for as long as it stays stopped)%s'
                      % ({'flock': 'flock()', 'posix': 'POSIX record', 'ofd': 'open-file-description'}[kind], ('; blocking calls on the open path: %s' % waits) if waits else ''), {'cmd': 'openlocked %s 3000' % kind, 'native': out})
         pr.handled = {n for n, m in pr.failed}
@@ -1113,8 +1213,28 @@ def restart_chain_native(ck):
         outs.append({'generation': gen, 'chain': [c[:60] for c in chain]})
     ck.cov['native_restart_chain'] = outs
     ck.cov['evaluations'] += 9
+    # the other half of clause (c): a daemon KILLED at any write of wipe() (cold start, or repair of an unusable file) leaves something
+    # the next start repairs: the restarted daemon starts, publishes, and a new client attaches and reads that publication
+    rp = common.Replay('debug')
+    reps = []
+    for prior in ('MISSING', '', 'ab' * 72):
+        for limit in (0, 4, 8, 12, 14, 16, 40):
+            out = rp.ask('wiperepair %s %d' % (prior, limit))
+            f = dict(x.split('=', 1) for x in out.split()[1:] if '=' in x) if out.startswith('ok') else {}
+            reps.append({'prior': prior[:8] or 'empty', 'killed_at_bytes': limit, 'out': out[:200]})
+            if not out.startswith('ok'):
+                continue
+            if f.get('restart') != 'ok' or not f.get('reader', '').startswith('Ok:record_bound=4242'):
+                bad.append('a daemon starting over %s is killed inside wipe() at the write crossing %d bytes (left behind: %s); the restarted daemon: %s; a new client after its first publication: %s - the unusable segment is not repaired'
+                           % ({'MISSING': 'no file', '': 'an empty file'}.get(prior, 'a 72-byte garbage file'), limit, f.get('left'), f.get('restart'), f.get('reader')))
+                break
+        if bad:
+            break
+    rp.close()
+    ck.cov['native_kill_inside_wipe_then_restart'] = reps
+    ck.cov['evaluations'] += len(reps)
     if bad:
-        ck.violation('restart-chain', bad[0], {'cmd': 'recreate (three starts in a row)', 'native': outs, 'all': bad})
+        ck.violation('restart-chain', bad[0], {'cmd': 'recreate (three starts in a row) / wiperepair', 'native': outs, 'repair': reps, 'all': bad})
     return bad
 
 
